@@ -269,6 +269,7 @@ type batchResult struct {
 	Outs       []*sim.WorkerOut
 	Infra      []string
 	Crashes    []string
+	CrashRuns  []int
 	Runs       int
 	Nontrivial int
 	Distinct   map[uint64]bool
@@ -347,6 +348,7 @@ func runBatch(b *built, prop, tier string, seed uint64, avoid []string, cfg tier
 					return
 				}
 				br.Crashes = append(br.Crashes, fmt.Sprintf("run %d: %v\n%s", run, err, tail))
+				br.CrashRuns = append(br.CrashRuns, run)
 				mu.Unlock()
 				from = run + nw
 				if from >= cfg.Runs {
@@ -473,7 +475,18 @@ func cmdCheck(args []string) int {
 	for _, br := range batches {
 		infra = append(infra, br.Infra...)
 		// crashed workers: reproduce the crashing run alone
-		for _, c := range br.Crashes {
+		for ci, c := range br.Crashes {
+			// A worker process died. If the same run kills a fresh process again, and with a fatal
+			// error of the Go runtime or an unrecovered panic, the code under test has crashed the
+			// process: that is a violation (every property here includes "never crashes"), not a
+			// problem of the machinery. Anything else (killed from outside, not reproducible) stays
+			// without verdict.
+			if ci < len(br.CrashRuns) && len(confirmedV) < 3 {
+				if cv := confirmCrash(b, prop, br, br.CrashRuns[ci]); cv != nil {
+					confirmedV = append(confirmedV, *cv)
+					continue
+				}
+			}
 			infra = append(infra, "worker crash: "+c)
 		}
 		bySig := map[string][]*sim.RunResult{}
@@ -665,6 +678,16 @@ type replayFile struct {
 	Triggers  []string        `json:"triggers,omitempty"`
 	Log       []string        `json:"event_log"`
 	Note      string          `json:"note"`
+	// Regenerate: for a run that kills the process there is no recorded tape; the run is a pure
+	// function of (seed, property, run index, tier, avoided triggers) and is generated again.
+	Regenerate *regen `json:"regenerate,omitempty"`
+}
+
+type regen struct {
+	Seed  uint64   `json:"seed"`
+	Run   int      `json:"run"`
+	Tier  string   `json:"tier"`
+	Avoid []string `json:"avoid,omitempty"`
 }
 
 func repoTree() string {
@@ -677,6 +700,45 @@ func repoTree() string {
 		s += "+dirty"
 	}
 	return s
+}
+
+// confirmCrash runs one run index alone in a fresh process (twice) and returns a confirmed
+// violation if the process dies both times with a Go fatal error or panic.
+func confirmCrash(b *built, prop string, br *batchResult, run int) *confirmed {
+	var detail string
+	for attempt := 0; attempt < 2; attempt++ {
+		a := sim.WorkerArgs{Prop: prop, Seed: br.Seed, From: run, To: run + 1, Stride: 1, Mode: "explore", Tier: br.Tier, Avoid: br.Avoid,
+			Out: filepath.Join(b.scratch, fmt.Sprintf("crash-%s-%d-%d.json", br.Name, run, attempt)), WallS: 120, Samples: 0, MaxViol: 6}
+		out, tail, err := runWorker(b, a, 5*time.Minute)
+		if err == nil && out != nil {
+			return nil // did not die this time
+		}
+		i := strings.Index(tail, "fatal error:")
+		if i < 0 {
+			i = strings.Index(tail, "panic:")
+		}
+		if i < 0 {
+			return nil // killed from outside, watchdog, ...: no verdict
+		}
+		d := tail[i:]
+		if len(d) > 3000 {
+			d = d[:3000]
+		}
+		detail = d
+	}
+	first := detail
+	if k := strings.IndexByte(first, '\n'); k >= 0 {
+		first = first[:k]
+	}
+	sig := prop + ":process-crash"
+	rf := replayFile{Property: prop, Signature: sig, Detail: "the run kills the process: " + detail, Engine: sim.EngineVersion, RepoTree: repoTree(),
+		Regenerate: &regen{Seed: br.Seed, Run: run, Tier: br.Tier, Avoid: br.Avoid},
+		Note:       "no tape can be recorded for a run that kills its process; `bin/verif replay <this file>` generates the same run again (it is a pure function of seed, property, run index, tier and avoided triggers) in a fresh process and shows how it dies. Not minimised."}
+	os.MkdirAll(filepath.Join(outDir(), "replays"), 0o755)
+	path := filepath.Join(outDir(), "replays", fmt.Sprintf("%s-crash-%d-%d.json", prop, br.Seed, run))
+	jb, _ := json.MarshalIndent(rf, "", " ")
+	os.WriteFile(path, jb, 0o644)
+	return &confirmed{Signature: sig, Detail: "the run kills the process: " + first, Replay: path, Run: run}
 }
 
 func minimiseAndConfirm(b *built, prop, sig string, r *sim.RunResult, tier string) (*confirmed, error) {
@@ -756,6 +818,22 @@ func cmdReplay(args []string) int {
 	defer b.cleanup()
 	if err != nil {
 		fmt.Fprintln(os.Stderr, "BUILD FAILED:", err)
+		return 2
+	}
+	if rf.Regenerate != nil {
+		g := rf.Regenerate
+		a := sim.WorkerArgs{Prop: rf.Property, Seed: g.Seed, From: g.Run, To: g.Run + 1, Stride: 1, Mode: "explore", Tier: g.Tier, Avoid: g.Avoid,
+			Out: filepath.Join(b.scratch, "regen.json"), WallS: 120, Samples: 1, MaxViol: 6}
+		out, tail, err := runWorker(b, a, 5*time.Minute)
+		if err == nil && out != nil {
+			fmt.Println("the run completed this time: the process did not die")
+			return 0
+		}
+		fmt.Println(tail)
+		if strings.Contains(tail, "fatal error:") || strings.Contains(tail, "panic:") {
+			fmt.Printf("VIOLATION property=%s replay=%s\n", rf.Property, path)
+			return 1
+		}
 		return 2
 	}
 	abs, _ := filepath.Abs(path)
